@@ -393,23 +393,24 @@ def discharge(o, hyps, pool, budget_ms=20000):
         if r['proved'] is None:
             return dict(status='undecided', backend=r['method'], seconds=time.time() - t0, witness=None,
                         detail='; '.join(f'{k}: {res}' for k, res in r['failed'][:3]))
-        # non-zero residual although every sample agreed in double precision: look
-        # for a point where the two sides differ in 60-digit arithmetic
-        detail = 'non-zero residual: ' + '; '.join(f'{k}: {res}' for k, res in r['failed'][:3])
-        for pt in pts:
-            try:
-                dlt = abs(pt.eval_mp(core.sub(o.lhs, o.rhs)))
-                if dlt > 1e-40 * max(pt.mag(o.lhs), pt.mag(o.rhs), 1e-300):
-                    return dict(status='refuted', backend=r['method'], seconds=time.time() - t0, witness=pt,
-                                detail=detail + f' ; |lhs-rhs| = {float(dlt):.3e} at a sample point (60 digits)')
-            except Exception:
-                continue
         # the residual may vanish on this path only (tie conditions among the hypotheses): ask the SMT back end
         if DEADLINE['t'] is None or time.time() < DEADLINE['t']:
             rr = smt.prove(core.cmp('eq', o.lhs, o.rhs), hyps, timeout_ms=min(budget_ms, 4000), external=False)
             if rr['status'] == 'proved':
                 return dict(status='proved', backend=rr['backend'], seconds=time.time() - t0, witness=None,
                             detail='equality follows from the path condition')
+        # non-zero residual although every sample agreed in double precision: look
+        # for a point where the two sides differ in 60-digit arithmetic
+        detail = 'non-zero residual: ' + '; '.join(f'{k}: {res}' for k, res in r['failed'][:3])
+        for pt in pts:
+            try:
+                dlt = abs(pt.eval_mp(core.sub(o.lhs, o.rhs)))
+                # (points built from solver models satisfy tie conditions of the path only to double precision)
+                if dlt > 1e-13 * max(pt.mag(o.lhs), pt.mag(o.rhs), 1e-300):
+                    return dict(status='refuted', backend=r['method'], seconds=time.time() - t0, witness=pt,
+                                detail=detail + f' ; |lhs-rhs| = {float(dlt):.3e} at a sample point (60 digits)')
+            except Exception:
+                continue
         return dict(status='refuted' if not pts else 'undecided', backend=r['method'],
                     seconds=time.time() - t0, witness=None, detail=detail)
     if o.kind == 'holds':
